@@ -146,6 +146,10 @@ func h2Goroutines() []gor {
 				g.site = "inline-read" // the reader itself sits in ReadFrame, outside its select
 			default:
 				g.site = "select"
+				if !strings.HasPrefix(g.state, "select") && g.state != "running" && g.state != "runnable" {
+					// in relayFrames itself but not in its select: name what it is blocked on
+					g.site = strings.ReplaceAll(strings.SplitN(g.state, ",", 2)[0], " ", "-")
+				}
 			}
 		case strings.Contains(blk, "relayFrames.func") && (strings.Contains(blk, "ReadFrame") || strings.HasPrefix(g.state, "chan send")):
 			// blocked in the read, or (after it) on `frameReady <- struct{}{}`
@@ -243,6 +247,12 @@ func (c *faultConn) Write(b []byte) (int, error) {
 func (c *faultConn) Close() error {
 	c.once.Do(func() { close(c.closeCh) })
 	return c.Conn.Close()
+}
+
+func (c *faultConn) isStalled() bool {
+	c.mu.Lock()
+	defer c.mu.Unlock()
+	return c.stalled && !c.failWrites.Load()
 }
 
 func (c *faultConn) stall(on bool) {
